@@ -12,6 +12,7 @@ import (
 	"context"
 	"fmt"
 	"net/netip"
+	"slices"
 	"sort"
 	"strings"
 	"sync/atomic"
@@ -33,10 +34,13 @@ type vc09KeyState struct {
 	CtrCreated vc09T
 	Log        []vc09T // the last limit events that went into the window, oldest first
 
-	HasHit     bool
-	HitCreated vc09T
-	HitLast    vc09T
-	Hits       int
+	// HitTimes are the over-limit hits that may still count towards backoff
+	// (at most the last count of them), oldest first; HitFirst is the first hit
+	// since the hits were last forgotten altogether.
+	HitTimes  []vc09T
+	HitFirst  vc09T
+	InBackoff bool
+	Reach     vc09T // when the hits reached the backoff count
 
 	// StrictLate is set when this explanation needs the subnet's window to have
 	// been forgotten (window object older than the backoff period) although
@@ -47,6 +51,7 @@ type vc09KeyState struct {
 func (s *vc09KeyState) clone() *vc09KeyState {
 	c := *s
 	c.Log = append([]vc09T(nil), s.Log...)
+	c.HitTimes = append([]vc09T(nil), s.HitTimes...)
 
 	return &c
 }
@@ -59,6 +64,9 @@ type vc09Limits struct {
 	ivl      int64
 	period   int64
 	duration int64
+	// hitSpan is the time within which over-limit hits are counted together:
+	// the backoff period by the documentation.
+	hitSpan int64
 }
 
 type vc09Succ struct {
@@ -79,19 +87,27 @@ func vc09Cmp(now, then vc09T, d, slack int64) (mayLE, mayGT bool) {
 // vc09Step returns every (state, verdict) the statement allows for an event at
 // T in state s.
 //
-// What is fixed by the statement and asserted: events count for exactly the
-// interval (boundary inclusive); every event that reached the window counts,
-// dropped or not; a subnet whose over-limit hits reached the backoff count
-// while all of them are at most min(period, duration) old is in backoff; after
-// period+duration without a hit it is not; a subnet in backoff is dropped and
-// such a query is not a countable event, neither for the window nor for the
-// hit count (doc/configuration.md: requests "aren't allowed from client's
-// subnet until backoff_duration ends", so once it has ended the subnet is
-// served again however hard it retried meanwhile).  What the statement leaves open and is therefore allowed
-// either way: whether hits older than that still count / backoff still lasts
-// until period+duration after the last hit; whether the subnet's window is
-// forgotten once the window object is older than the backoff period (the code
-// does forget it; see the StrictLate class).
+// What is fixed by the statement and the documentation, and asserted:
+//
+//   - events count for exactly the interval (boundary inclusive); every event
+//     that reached the window counts, dropped or not;
+//   - over-limit hits are counted together only within the backoff period
+//     ("the time during which to count the number of requests that a client
+//     has sent over the RPS"): hits further apart than hitSpan never add up;
+//   - once count hits lie within that span the subnet is in backoff, at least
+//     while the first of them is at most min(period, duration) old and at most
+//     until backoff_duration after the count was reached;
+//   - a subnet in backoff is dropped and such a query is not a countable event,
+//     neither for the window nor for the hit count (requests "aren't allowed
+//     from client's subnet until backoff_duration ends", so once it has ended
+//     the subnet is served again however hard it retried meanwhile).
+//
+// What is left open and therefore allowed either way: whether all hits are
+// forgotten at once when the first of them is older than min(period, duration)
+// (the code does that) or slide out one by one; whether backoff ends
+// backoff_duration after the first hit or after the count was reached; whether
+// the subnet's window is forgotten once the window object is older than the
+// backoff period (the code does forget it; see the StrictLate class).
 func vc09Step(s *vc09KeyState, T vc09T, lm *vc09Limits, slack int64) (out []vc09Succ) {
 	type hitOpt struct {
 		s   *vc09KeyState
@@ -99,29 +115,52 @@ func vc09Step(s *vc09KeyState, T vc09T, lm *vc09Limits, slack int64) (out []vc09
 	}
 
 	var hitOpts []hitOpt
-	if !s.HasHit {
+	if len(s.HitTimes) == 0 && !s.InBackoff {
 		hitOpts = []hitOpt{{s, ""}}
 	} else {
-		_, mayOlder := vc09Cmp(T, s.HitCreated, min(lm.period, lm.duration), slack)
-		mayWithin, _ := vc09Cmp(T, s.HitLast, lm.period+lm.duration, slack)
-		if mayWithin {
-			hitOpts = append(hitOpts, hitOpt{s, "hits kept"})
+		if _, mayOlder := vc09Cmp(T, s.HitFirst, min(lm.period, lm.duration), slack); mayOlder {
+			c := s.clone()
+			c.HitTimes, c.HitFirst, c.InBackoff, c.Reach = nil, vc09T{}, false, vc09T{}
+			hitOpts = append(hitOpts, hitOpt{c, "all hits forgotten"})
 		}
 
-		if mayOlder {
+		stillMay, endedMay := true, false
+		if s.InBackoff {
+			stillMay, endedMay = vc09Cmp(T, s.Reach, lm.duration, slack)
+		}
+
+		if s.InBackoff && stillMay {
+			out = append(out, vc09Succ{s, true, "in backoff"})
+		}
+
+		if !s.InBackoff || endedMay {
+			// Hits that can no longer be within the span of any later hit are
+			// dropped from the state.
 			c := s.clone()
-			c.HasHit, c.Hits, c.HitCreated, c.HitLast = false, 0, vc09T{}, vc09T{}
-			hitOpts = append(hitOpts, hitOpt{c, "hits expired"})
+			c.InBackoff, c.Reach = false, vc09T{}
+			kept := c.HitTimes[:0]
+			for _, h := range c.HitTimes {
+				if mayLE, _ := vc09Cmp(T, h, lm.hitSpan, slack); mayLE {
+					kept = append(kept, h)
+				}
+			}
+
+			c.HitTimes = kept
+			why := "hits kept"
+			if s.InBackoff {
+				why = "backoff ended; hits kept"
+			}
+
+			if len(c.HitTimes) == 0 {
+				c.HitTimes, c.HitFirst = nil, vc09T{}
+			}
+
+			hitOpts = append(hitOpts, hitOpt{c, why})
 		}
 	}
 
 	for _, ho := range hitOpts {
 		s1 := ho.s
-		if s1.HasHit && s1.Hits >= lm.count {
-			out = append(out, vc09Succ{s1, true, ho.why + "; in backoff"})
-
-			continue
-		}
 
 		type ctrOpt struct {
 			s     *vc09KeyState
@@ -137,7 +176,7 @@ func vc09Step(s *vc09KeyState, T vc09T, lm *vc09Limits, slack int64) (out []vc09
 			}
 		}
 
-		// keptAbove: what the kept window says, for the StrictLate mark.
+		// keptDefAbove: what the kept window says, for the StrictLate mark.
 		keptDefAbove := false
 		for _, co := range ctrOpts {
 			s2 := co.s
@@ -178,17 +217,42 @@ func vc09Step(s *vc09KeyState, T vc09T, lm *vc09Limits, slack int64) (out []vc09
 					}
 				}
 
-				if above {
-					if s3.HasHit {
-						s3.Hits++
-						s3.HitLast = T
-					} else {
-						s3.HasHit, s3.Hits, s3.HitCreated, s3.HitLast = true, 1, T, T
-					}
-
-					out = append(out, vc09Succ{s3, true, why + "; limit reached within the interval"})
-				} else {
+				if !above {
 					out = append(out, vc09Succ{s3, false, why + "; below the limit"})
+
+					continue
+				}
+
+				// An over-limit hit.  How many earlier hits are within the span?
+				nDef, nPoss := 1, 1
+				for _, h := range s3.HitTimes {
+					mayLE, mayGT := vc09Cmp(T, h, lm.hitSpan, slack)
+					if mayLE {
+						nPoss++
+						if !mayGT {
+							nDef++
+						}
+					}
+				}
+
+				if len(s3.HitTimes) == 0 {
+					s3.HitFirst = T
+				}
+
+				s3.HitTimes = append(s3.HitTimes, T)
+				if keep := max(lm.count, 1); len(s3.HitTimes) > keep {
+					s3.HitTimes = s3.HitTimes[len(s3.HitTimes)-keep:]
+				}
+
+				why += "; limit reached within the interval"
+				if nDef < lm.count {
+					out = append(out, vc09Succ{s3, true, why})
+				}
+
+				if nPoss >= lm.count {
+					s4 := s3.clone()
+					s4.InBackoff, s4.Reach = true, T
+					out = append(out, vc09Succ{s4, true, why + "; backoff count reached"})
 				}
 			}
 		}
@@ -232,6 +296,7 @@ func (ks *vc09KeySet) apply(T vc09T, lm *vc09Limits, slack int64, observed *bool
 
 	if len(next) == 0 {
 		sort.Strings(verdicts)
+		verdicts = slices.Compact(verdicts)
 
 		return false, strings.Join(verdicts, " | ")
 	}
@@ -311,6 +376,11 @@ func vc09Rewind(l *Backoff, d time.Duration) (slack int64) {
 // ---------------------------------------------------------------------------
 // driver
 
+// vc09KnownHitSpan is the identity of the finding that Backoff counts
+// over-limit hits together for backoff_duration after the first hit instead of
+// within backoff_period (visible only when duration > period).
+const vc09KnownHitSpan = "backoff-hits-counted-over-duration"
+
 type vc09SlideRun struct {
 	realtime bool
 	unit     time.Duration // scale of all durations
@@ -337,7 +407,17 @@ func vc09SlidingCase(t *rapid.T, st *vstat.Stats, run vc09SlideRun) {
 	// A third of the cases start with a constructed flood: one subnet enters
 	// backoff and keeps retrying above the limit until backoff has certainly
 	// ended.  Short period/duration keep that history short.
-	flood := rapid.IntRange(0, 2).Draw(t, "flood") == 0
+	mode := rapid.SampledFrom([]string{"flood", "flood", "spread", "random", "random", "random"}).Draw(t, "mode")
+	flood, spread := mode == "flood", mode == "spread"
+	p6 := rapid.SampledFrom([]int{0, 0, 30, 100}).Draw(t, "p6")
+	if spread {
+		// Over-limit hits further apart than backoff_period but within
+		// backoff_duration of the first: by the documentation they never add up.
+		persistent, p6 = nil, 0
+		c.Period, c.Duration = 20*u, 100*u
+		c.Count = uint(rapid.IntRange(2, 3).Draw(t, "spreadCount"))
+	}
+
 	if flood {
 		persistent = nil
 		c.Period = time.Duration(rapid.SampledFrom([]int{20, 30}).Draw(t, "floodPeriod")) * u
@@ -348,11 +428,27 @@ func vc09SlidingCase(t *rapid.T, st *vstat.Stats, run vc09SlideRun) {
 	}
 
 	l := c.build(NewDynamicAllowlist(persistent, nil))
-	sets := map[string]*vc09KeySet{}
-	limits := func(ip netip.Addr) (key string, lm *vc09Limits) {
-		key, lim, ivl := c.keyOf(ip)
+	// Per subnet: the allowed states under the documented reading (hits are
+	// counted together within backoff_period) and, where that differs, under
+	// the reading the code implements (within backoff_duration after the first
+	// hit).  The second only serves to recognise the recorded finding
+	// vc09KnownHitSpan precisely; a verdict that neither explains is a
+	// violation whatever is recorded.
+	type keySets struct {
+		ks, alt *vc09KeySet
+	}
 
-		return key, &vc09Limits{lim: lim, count: int(c.Count), ivl: int64(ivl), period: int64(c.Period), duration: int64(c.Duration)}
+	sets := map[string]*keySets{}
+	limits := func(ip netip.Addr) (key string, lm, lmAlt *vc09Limits) {
+		key, lim, ivl := c.keyOf(ip)
+		lm = &vc09Limits{lim: lim, count: int(c.Count), ivl: int64(ivl), period: int64(c.Period), duration: int64(c.Duration), hitSpan: int64(c.Period)}
+		if c.Duration > c.Period {
+			a := *lm
+			a.hitSpan = int64(c.Duration)
+			lmAlt = &a
+		}
+
+		return key, lm, lmAlt
 	}
 
 	var offset, slack int64
@@ -369,7 +465,6 @@ func vc09SlidingCase(t *rapid.T, st *vstat.Stats, run vc09SlideRun) {
 	// ends") they are not countable events.
 	backoffDrops := map[string][]vc09T{}
 	nontrivial := false
-	p6 := rapid.SampledFrom([]int{0, 0, 30, 100}).Draw(t, "p6")
 	jit := func(label string) time.Duration {
 		return time.Duration(rapid.IntRange(1, 9).Draw(t, label)) * u / 10
 	}
@@ -406,13 +501,22 @@ func vc09SlidingCase(t *rapid.T, st *vstat.Stats, run vc09SlideRun) {
 	// cannot be judged any further.
 	query := func(label string, ip netip.Addr, qt uint16, size int) (abort bool) {
 		req := vc09Req(qt)
-		key, lm := limits(ip)
-		ks := sets[key]
-		if ks == nil {
-			ks = &vc09KeySet{states: []*vc09KeyState{{}}}
-			sets[key] = ks
+		key, lm, lmAlt := limits(ip)
+		kss := sets[key]
+		if kss == nil {
+			kss = &keySets{ks: &vc09KeySet{states: []*vc09KeyState{{}}}}
+			if lmAlt != nil {
+				kss.alt = &vc09KeySet{states: []*vc09KeyState{{}}}
+			}
+
+			sets[key] = kss
 		}
 
+		if kss.alt == nil {
+			lmAlt = nil
+		}
+
+		ks := kss.ks
 		b := time.Now().UnixNano()
 		drop, allow, err := l.IsRateLimited(ctx, req, ip)
 		a := time.Now().UnixNano()
@@ -450,13 +554,35 @@ func vc09SlidingCase(t *rapid.T, st *vstat.Stats, run vc09SlideRun) {
 
 		wasInBackoff := !ks.lost && len(ks.states) > 0
 		for _, s := range ks.states {
-			wasInBackoff = wasInBackoff && s.HasHit && s.Hits >= lm.count
+			wasInBackoff = wasInBackoff && s.InBackoff
+		}
+
+		altOK := false
+		if lmAlt != nil {
+			altOK, _ = kss.alt.apply(T, lmAlt, slack, &drop)
+			altOK = altOK && !kss.alt.lost
 		}
 
 		ok, allowed := ks.apply(T, lm, slack, &drop)
 		if !ok {
-			t.Fatalf("query from %s (subnet %s, limit %d per %s): limiter says drop=%t; verdicts the statement allows here: %s\n%s",
-				ip, key, lm.lim, time.Duration(lm.ivl), drop, allowed, hist())
+			if altOK && st.Known(vc09KnownHitSpan) {
+				// Excluded, counted; the subnet is judged by the code's reading
+				// from here on.
+				classes["known-hits-counted-over-duration"] = true
+				kss.ks, kss.alt = kss.alt, nil
+				ks, lm = kss.ks, lmAlt
+			} else {
+				note := ""
+				if altOK {
+					note = "\n(the verdict is explained if over-limit hits are counted together within backoff_duration after the first hit instead of within backoff_period: finding " + vc09KnownHitSpan + ")"
+				}
+
+				t.Fatalf("query from %s (subnet %s, limit %d per %s): limiter says drop=%t; verdicts the statement allows here: %s%s\n%s",
+					ip, key, lm.lim, time.Duration(lm.ivl), drop, allowed, note, hist())
+			}
+		} else if lmAlt != nil && !altOK {
+			// The code's reading no longer explains the history: stop tracking it.
+			kss.alt = nil
 		}
 
 		if ks.lost {
@@ -485,7 +611,7 @@ func vc09SlidingCase(t *rapid.T, st *vstat.Stats, run vc09SlideRun) {
 			}
 
 			for _, s := range ks.states {
-				if s.HasHit && s.Hits >= lm.count {
+				if s.InBackoff {
 					classes["backoff-entered"] = true
 				}
 			}
@@ -532,6 +658,9 @@ func vc09SlidingCase(t *rapid.T, st *vstat.Stats, run vc09SlideRun) {
 			T = vc09T{Lo: b + offset, Hi: a + offset}
 			for j := uint64(0); j < extra; j++ {
 				ks.apply(T, lm, slack, nil)
+				if kss.alt != nil {
+					kss.alt.apply(T, lmAlt, slack, nil)
+				}
 			}
 
 			if extra > 0 {
@@ -546,7 +675,7 @@ func vc09SlidingCase(t *rapid.T, st *vstat.Stats, run vc09SlideRun) {
 	if flood {
 		classes["constructed-flood"] = true
 		ip := vc09DrawAddr(t, c.KL4, c.KL6, p6)
-		_, lm := limits(ip)
+		_, lm, _ := limits(ip)
 		ivl := time.Duration(lm.ivl)
 		// Enter backoff: limit queries pass, count more are over-limit hits, one
 		// more is dropped by backoff.
@@ -574,9 +703,35 @@ func vc09SlidingCase(t *rapid.T, st *vstat.Stats, run vc09SlideRun) {
 		}
 	}
 
+	if spread {
+		classes["hits-spread-beyond-period"] = true
+		ip := vc09DrawAddr(t, c.KL4, c.KL6, 0)
+		_, lm, _ := limits(ip)
+		ivl := time.Duration(lm.ivl)
+		for h := 0; h < lm.count; h++ {
+			// limit queries pass, one more is an over-limit hit.
+			for j := 0; j < lm.lim+1; j++ {
+				if query(fmt.Sprintf("s%d", h), ip, dns.TypeA, 0) {
+					return
+				}
+			}
+
+			if h < lm.count-1 {
+				advance(fmt.Sprintf("s%d", h), max(c.Period, ivl)+jit("spreadJ"))
+			}
+		}
+
+		// The window is empty again and no two hits lie within one period: the
+		// subnet must be served.
+		advance("sp", ivl+jit("spreadJ"))
+		if query("sp", ip, dns.TypeA, 0) {
+			return
+		}
+	}
+
 	steps := rapid.IntRange(6, 45).Draw(t, "steps")
-	if flood {
-		steps = rapid.IntRange(0, 10).Draw(t, "stepsAfterFlood")
+	if flood || spread {
+		steps = rapid.IntRange(0, 10).Draw(t, "stepsAfterScenario")
 	}
 
 	for i := 0; i < steps; i++ {
@@ -645,8 +800,8 @@ func vc09SlidingCase(t *rapid.T, st *vstat.Stats, run vc09SlideRun) {
 
 func TestVerifC09BackoffSliding(t *testing.T) {
 	st := vstat.New("C09", "ratelimit.backoff.sliding",
-		"rapid histories (query with optional counted response | clock advance by a gap around interval/period/duration boundaries; a third of the cases start with a constructed flood: one subnet enters backoff and keeps retrying above the limit in bursts less than an interval apart until period+duration have certainly passed) against Backoff with the harness owning the clock (every stored instant rewound); reference = set of per-subnet states allowed by the statement, evaluated with interval arithmetic on measured call instants; non-trivial = a query of a subnet was dropped and a later query of the same subnet passed (window slid or backoff ended), distinct by (config, history)",
-		"dropped-then-pass-same-subnet", "backoff-entered", "dropped-in-backoff", "served-after-backoff-with-backoff-drops-filling-window", "other-subnet-passes-during-flood", "large-response-counted", "gap-over-period", "v6", "allowlisted-pass", "any-refused")
+		"rapid histories (query with optional counted response | clock advance by a gap around interval/period/duration boundaries; a third of the cases start with a constructed flood: one subnet enters backoff and keeps retrying above the limit in bursts less than an interval apart until period+duration have certainly passed; a sixth start with over-limit hits spread further apart than backoff_period but within backoff_duration, after which the subnet must still be served) against Backoff with the harness owning the clock (every stored instant rewound); reference = set of per-subnet states allowed by the statement, evaluated with interval arithmetic on measured call instants; non-trivial = a query of a subnet was dropped and a later query of the same subnet passed (window slid or backoff ended), distinct by (config, history)",
+		"dropped-then-pass-same-subnet", "backoff-entered", "dropped-in-backoff", "served-after-backoff-with-backoff-drops-filling-window", "hits-spread-beyond-period", "other-subnet-passes-during-flood", "large-response-counted", "gap-over-period", "v6", "allowlisted-pass", "any-refused")
 	st.Finish(t)
 
 	rapid.Check(t, func(t *rapid.T) {
